@@ -39,7 +39,7 @@ Definition res_match (r : sres) (o : ores) : bool :=
   | RHosts elig limit, ONodes ids =>
       nodupb ids && forallb (fun i => memb i (map n_id elig)) ids &&
       Nat.eqb (length ids)
-              (if limit <=? 0 then length elig else Nat.min (Z.to_nat limit) (length elig))
+              (if limit <=? 0 then length elig else if Z.of_nat (length elig) <=? limit then length elig else Z.to_nat limit)
   | RIds l, OIds ids => ids_eqb l ids
   | RBal b, OBal a c => N.eqb (b_acct b) a && Z.eqb (b_credit b) c
   | RStats s, OStats s' => stats_eqb s s'
